@@ -27,28 +27,27 @@ ASSUMPTIONS = ["the map is empty and nobody else stores entries while the rebuil
                "by a kid crash (Rebuild::Stats in shared memory) is not covered",
                "slot count below 2^31 and payload sums below 2^64 (sizes are unbounded naturals in the model)"]
 MANIFEST = {
-    "text": "partial: for every db image (any list of raw slots, any metadata parser results, any length) and all eight source variants: "
-            "rebuild_terminates (no link-following loop exhausts its fuel); rebuild_crash_classes (if the rebuild dies it dies in one of exactly "
-            "four ways -- all-ones entrySize assert, all-ones swap_file_sz assert, a slot pushed on the free stack twice, an unprocessed slot "
-            "under squid -S -- every other assert/uncaught Must of the modelled code is unreachable); readable_entries_intact (every readable "
-            "entry has a non-empty, acyclic slice chain inside the db ending with -1 whose sizes add up to swap_file_sz, or to less in the "
-            "variant without the size check); readable_size_exact (equality with the check); readable_chains_disjoint; "
-            "readable_chain_matches_disk (every slice of a readable chain = payload size and link of the sane, non-empty db cell there); "
-            "readable_chain_own_slots_partial (hypothesis Own: owner check in finalizeOrThrow, or no nextSlot of the image leaves its entry "
-            "position: every chain slot is a cell of that entry, not freed, not on the free stack) and its unconditional form for the "
-            "owner-checking variant. The full statement is false of the pinned source: short_entry_counterexample, "
-            "stolen_slot_counterexample, unprocessed_slot_crash, double_free_crash, all_ones_entry_size_crash, all_ones_swap_file_sz_crash "
-            "(each replayed on the real Rock::Rebuild, corpus/C57), with *_fixed theorems for the candidate repairs. Missing for full: "
-            "absence of the two stolen-slot crashes under Own and of the all-ones crashes in the repaired variant is shown by witnesses and "
-            "by the differential run only.",
+    "text": "partial: the statement is false of the pinned source (three confirmed defects); proved for every db image (any list of raw slots, "
+            "any metadata parser results, any length) and all eight source variants: rebuild_terminates; rebuild_crash_classes (a dying "
+            "rebuild dies in one of exactly four ways -- the two all-ones size assertions, a slot pushed on the free stack twice, an "
+            "unprocessed slot under squid -S -- every other assert/uncaught Must of the modelled code is unreachable); "
+            "readable_entries_intact (every readable entry has a non-empty, acyclic slice chain inside the db ending with -1 whose sizes "
+            "add up to swap_file_sz, or to less in the variant without the size check); readable_size_exact; readable_chains_disjoint; "
+            "readable_chain_matches_disk; under the explicit hypothesis Own (owner check in finalizeOrThrow, or no nextSlot of the image "
+            "leaves its entry position): readable_chain_own_slots_partial (chain slots are cells of that entry, not freed, not on the free "
+            "stack) and no_stolen_slot_crash_partial; no_all_ones_crash_fixed; and for the source with the three candidate repairs the "
+            "statement at FULL strength for every image: repaired_rebuild_never_crashes, repaired_source_satisfies_property. "
+            "Counterexample theorems for the pinned source (each replayed on the real Rock::Rebuild, corpus/C57): "
+            "short_entry_counterexample, stolen_slot_counterexample, unprocessed_slot_crash, double_free_crash, "
+            "all_ones_entry_size_crash, all_ones_swap_file_sz_crash.",
     "note": "trusted: Lean kernel, translator (constants printed by the staged harness, three source-shape flags by regex), C++ harness that "
             "serialises images, drives the real job and dumps the real map, python oracle. Modelled not verified: Store::UnpackIndexSwapMeta "
             "(enters as its result), Ipc::ReadWriteLock (writing bit). Not modelled: rebuild resumption after a kid crash, concurrent "
             "traffic during rebuild (the leIgnored branch is modelled and proved unreachable from an empty map), read errors, uint64 "
             "wrap-around of payload sums (impossible below 2^31 slots)",
     "technique": "Lean 4 inductive invariant over the slot-by-slot loading loop (function-valued state, chain predicates with frame lemmas, "
-                 "pigeonhole fuel bound, crash-class predicate) + source-variant flags + full-state differential run of the real "
-                 "Rock::Rebuild on synthesised db files under ASan/UBSan + direct oracle",
+                 "pigeonhole fuel bound, crash-class-indexed Hoare predicate, subset-sum argument for squid -S) + source-variant flags + "
+                 "full-state differential run of the real Rock::Rebuild on synthesised db files under ASan/UBSan + direct oracle",
 }
 
 # code under test, compiled from the stage with ASan/UBSan and placed before the tree's own (unsanitised) objects;
@@ -559,6 +558,8 @@ def cases(rng, tier):
             yield line_of(1, 128, 1, img)
         for img in small_images(2, small_alphabet(2, True)):
             yield line_of(2, 128, 0, img)
+        for img in small_images(2, small_alphabet(2, False)):
+            yield line_of(2, 128, 1, img)     # the same scope under squid -S
         a3 = small_alphabet(3, False)
         for img in small_images(3, a3[::3] if len(a3) > 40 else a3):
             yield line_of(3, 128, 0, img)
